@@ -3985,34 +3985,36 @@ impl<'a> ZonedDifference<'a> {
 
         let (dt1, mut dt2) = (zdt1.datetime(), zdt2.datetime());
 
+        // When both datetimes are on the same civil day, there are no
+        // calendar units in the difference and the result is just the
+        // elapsed time between the two instants. (This matters when one
+        // of the datetimes is in a fold: re-resolving its civil time below
+        // might otherwise pick the other instant of the fold.)
+        //
+        // Ref: https://tc39.es/proposal-temporal/#sec-temporal-differencezoneddatetime
+        if dt1.date() == dt2.date() {
+            return zdt1.timestamp().until((Unit::Hour, zdt2.timestamp()));
+        }
+
+        // The intermediate datetime (the time of `zdt1` on a date close to
+        // the date of `zdt2`) must not be past `zdt2`. Because of time zone
+        // transitions (for example, a gap that skips an entire civil day),
+        // up to two corrections of a whole day may be needed, including the
+        // initial one implied by the clock times.
+        let max_day_correct: t::SpanDays = C(2).rinto();
         let mut day_correct: t::SpanDays = C(0).rinto();
         if -sign == dt1.time().until_nanoseconds(dt2.time()).signum() {
             day_correct += C(1);
         }
 
-        let mut mid = dt2
-            .date()
-            .checked_add(Span::new().days_ranged(day_correct * -sign))
-            .with_context(|| {
-                err!(
-                    "failed to add {days} days to date in {dt2}",
-                    days = day_correct * -sign,
-                )
-            })?
-            .to_datetime(dt1.time());
-        let mut zmid: Zoned = mid.to_zoned(tz.clone()).with_context(|| {
-            err!(
-                "failed to convert intermediate datetime {mid} \
-                     to zoned timestamp in time zone {tz}",
-                tz = tz.diagnostic_name(),
-            )
-        })?;
-        if t::sign(zdt2, &zmid) == -sign {
-            if sign == C(-1) {
-                panic!("this should be an error");
+        let (mid, zmid) = loop {
+            if day_correct > max_day_correct {
+                return Err(err!(
+                    "failed to find an intermediate datetime between \
+                     {zdt1} and {zdt2} that does not come after {zdt2}",
+                ));
             }
-            day_correct += C(1);
-            mid = dt2
+            let mid = dt2
                 .date()
                 .checked_add(Span::new().days_ranged(day_correct * -sign))
                 .with_context(|| {
@@ -4022,17 +4024,19 @@ impl<'a> ZonedDifference<'a> {
                     )
                 })?
                 .to_datetime(dt1.time());
-            zmid = mid.to_zoned(tz.clone()).with_context(|| {
-                err!(
-                    "failed to convert intermediate datetime {mid} \
+            let zmid: Zoned =
+                mid.to_zoned(tz.clone()).with_context(|| {
+                    err!(
+                        "failed to convert intermediate datetime {mid} \
                          to zoned timestamp in time zone {tz}",
-                    tz = tz.diagnostic_name(),
-                )
-            })?;
-            if t::sign(zdt2, &zmid) == -sign {
-                panic!("this should be an error too");
+                        tz = tz.diagnostic_name(),
+                    )
+                })?;
+            if t::sign(zdt2, &zmid) != -sign {
+                break (mid, zmid);
             }
-        }
+            day_correct += C(1);
+        };
         let remainder_nano = zdt2.timestamp().as_nanosecond_ranged()
             - zmid.timestamp().as_nanosecond_ranged();
         dt2 = mid;
